@@ -42,8 +42,10 @@ def generate(ctx, budget):
             cases.append(c)
         elif r < 0.92:
             cases.append(relay.gen_pairing(ctx.rng, ctx.rng.choice(relay.PAIRING_SHAPES), False))
-        else:
+        elif r < 0.97:
             cases.append(relay.gen_burst(ctx.rng, False))
+        else:
+            cases.append(relay.gen_stall(ctx.rng, False))
     cases += relay.gen_orders(("eof", "hup", "rst", "shw") if thorough else ("eof", "hup"))[:: (1 if thorough else 4)]
     return cases
 
